@@ -8,15 +8,19 @@ import (
 	"go/constant"
 	"go/token"
 	"go/types"
+	"os"
 	"strings"
 
 	"golang.org/x/tools/go/ssa"
 )
 
+var initProf = os.Getenv("VX_INITPROF") != ""
+
 // goPanic is a panic of the interpreted program.
 type goPanic struct {
 	v     Value
 	where string
+	stack []string
 }
 
 type deferred struct {
@@ -133,7 +137,7 @@ func (in *Interp) stack() []string {
 
 func (in *Interp) throw(msg string) {
 	// a Go run-time panic of the interpreted program
-	panic(&goPanic{v: in.mkRuntimeError(msg), where: in.where()})
+	panic(&goPanic{v: in.mkRuntimeError(msg), where: in.where(), stack: in.stack()})
 }
 
 func (in *Interp) mkRuntimeError(msg string) Value {
@@ -228,6 +232,8 @@ func (in *Interp) ensureInit(pkg *ssa.Package) {
 		return
 	}
 	in.pkgInit[pkg] = 1
+	// dependency packages are built lazily: make sure the initialiser has a body
+	pkg.Build()
 	// allocate all globals first (zeroed)
 	for _, m := range pkg.Members {
 		if g, ok := m.(*ssa.Global); ok {
@@ -243,6 +249,12 @@ func (in *Interp) ensureInit(pkg *ssa.Package) {
 		return
 	}
 	initFn := pkg.Func("init")
+	if initProf {
+		before := in.steps
+		defer func() {
+			fmt.Fprintf(os.Stderr, "init %-60s %d steps\n", pkg.Pkg.Path(), in.steps-before)
+		}()
+	}
 	if initFn != nil && initFn.Blocks != nil {
 		saved := in.cur
 		in.inInit++
@@ -382,6 +394,13 @@ func sameValues(a Tuple, b []Value) bool {
 }
 
 func (in *Interp) callBody(caller *frame, fn *ssa.Function, name string, args []Value, env []Value) Value {
+	// packages are built lazily; Build blocks until a concurrent build by
+	// another worker has finished (never interpret a half-built function)
+	if pk := fn.Package(); pk != nil {
+		pk.Build()
+	} else if o := fn.Origin(); o != nil && o.Package() != nil {
+		o.Package().Build()
+	}
 	if fn.Blocks == nil {
 		if pk := fn.Package(); pk != nil {
 			pk.Build()
@@ -660,7 +679,7 @@ func (in *Interp) visitInstr(fr *frame, instr ssa.Instruction) continuation {
 		in.cur = fr
 
 	case *ssa.Panic:
-		panic(&goPanic{v: fr.get(instr.X), where: in.where()})
+		panic(&goPanic{v: fr.get(instr.X), where: in.where(), stack: in.stack()})
 
 	case *ssa.Send:
 		ch := fr.get(instr.Chan).(*Chan)
